@@ -1,4 +1,5 @@
 from abc import ABC, abstractmethod
+import numpy as np
 
 
 class BaseSolve(ABC):
@@ -73,6 +74,11 @@ class MarginalRayHeightSolve(BaseSolve):
         # the slope it has after surface k-1
         offset = ((self.height - ya[self.surface_idx]) /
                   ua[self.surface_idx - 1]).item()
+
+        # no marginal ray (e.g. an optimizer probing an invalid lens): a
+        # non-finite shift could never be undone by a later solve
+        if not np.isfinite(offset):
+            return
 
         # shift current surface and all subsequent surfaces
         for surface in self.optic.surface_group.surfaces[self.surface_idx:]:
